@@ -172,3 +172,33 @@ Definition dubbo_decode hess : view -> M (xframe * N) := dubbo_decode_sw hess du
 Definition dubbo_parse hess (b : bytes) := x_presult (dubbo_decode hess (view_of b)).
 Definition thrift_parse tparse (b : bytes) := x_presult (thrift_decode tparse (view_of b)).
 Definition tars_parse stype rparse (b : bytes) := x_presult (tars_decode stype rparse (view_of b)).
+
+(* =============================== encoders that go through a library =====================================
+   The serialisers are opaque section variables; the theorems about these encoders are stated RELATIVE to the
+   library's own reader/writer law (an explicit premise), which the harness validates on the real library. *)
+
+(* dubbo-thrift slow path (rawData == nil, e.g. after SetData): transport.Write(MagicTag); WriteI32(MaxInt32);
+   WriteI16(MaxInt16); WriteByte(1); WriteString(serviceName); WriteI64(id); headerLen := len; Write(payload);
+   PutUint16(message[6:], uint16(headerLen)); PutUint32(message[2:], uint32(messageLen));
+   data = PutUint32(messageLen) ++ message.   whdr svc id = the bytes of WriteString(serviceName) ++ WriteI64(id). *)
+Section ThriftEnc.
+Variable whdr : bytes -> N -> bytes.
+Definition thrift_encode_slow (svc : bytes) (id : N) (payload : bytes) : bytes :=
+  let lib := whdr svc id in
+  let hlen := thrift_HeaderIdx + blen lib in
+  let mlen := hlen + blen payload in
+  be_enc 4 (mlen mod U32) ++ [thrift_Magic0; thrift_Magic1] ++ be_enc 4 (mlen mod U32) ++ be_enc 2 (hlen mod U16) ++ [1] ++ lib ++ payload.
+End ThriftEnc.
+
+(* tars: Encode = 4 zero bytes, packet.WriteTo (TarsGo), then PutUint32(len) over the first 4 bytes.
+   pkt: the parsed Request/ResponsePacket; jread/jwrite: ReadFrom / WriteTo; pid: uint64(IRequestId);
+   set_pid: SetRequestId (cmd.IRequestId = int32(id)) *)
+Section TarsEnc.
+Variable pkt : Type.
+Variable jread : bool -> bytes -> option pkt.
+Variable jwrite : bool -> pkt -> bytes.
+Variable pid : pkt -> N.
+Definition tars_rparse (resp : bool) (b : bytes) : option N := option_map pid (jread resp b).
+Definition tars_encode (resp : bool) (p : pkt) : bytes :=
+  let body := jwrite resp p in be_enc 4 ((tars_MessageSizeLen + blen body) mod U32) ++ body.
+End TarsEnc.
